@@ -25,6 +25,11 @@ impl RepetitionTable {
         self.hashes.pop();
     }
 
+    /// Forgets all recorded positions
+    pub fn clear(&mut self) {
+        self.hashes.clear();
+    }
+
     /// Checks if a position has been repeated
     ///
     /// # Arguments
